@@ -27,7 +27,20 @@ def try_replay(prop, rec, ob):
         res = run_script(script)
         if res["exit"] == 1:
             return {"status": "reproduced", "path": os.path.relpath(script, VERIF), "output": res["out"][-2000:]}
-    return {"status": "not-reproduced"} if cands else None
+    # property-level scenario library: concrete programs with the expected behaviour asserted, all of which pass on the
+    # committed tree; one that fails now is a failing input for this property on the real code
+    lib = os.path.join(d, "library", prop)
+    tried = 0
+    if os.path.isdir(lib):
+        for name in sorted(os.listdir(lib)):
+            if not name.endswith(".py"):
+                continue
+            tried += 1
+            script = os.path.join(lib, name)
+            res = run_script(script, timeout=30)
+            if res["exit"] == 1:
+                return {"status": "reproduced", "path": os.path.relpath(script, VERIF), "output": res["out"][-2000:]}
+    return {"status": "not-reproduced", "scenarios_tried": tried + len(cands)} if (cands or tried) else None
 
 
 def run_script(script, timeout=60):
